@@ -15,7 +15,10 @@ Why(R) ==
   ELSE IF \E i \in DOMAIN R.ran : R.ran[i] \notin R.may_run THEN "a callable outside the allowlist executed: " \o R.ran[CHOOSE i \in DOMAIN R.ran : R.ran[i] \notin R.may_run]
   ELSE IF R.outsider /\ R.out # "unsafe" THEN "a load containing an outsider did not abort with the unsafe-file error (" \o R.out \o ")"
   ELSE IF ~R.outsider /\ R.out # "returned" /\ R.case.layer = "ml"
-       THEN "MACHINERY: a load of allow-listed globals only did not return (" \o R.out \o ")"      \* an extra static check may refuse more
+       \* (R.out = "unsafe": the environment refused a global of the built-in list or of the caller's additions - the set it
+       \* enforces is not the one of this activation; any other outcome is a failure of the generated payload itself)
+       THEN (IF R.out = "unsafe" THEN "a load naming only permitted globals was refused: the set in force is not the allowlist plus this activation's additions"
+             ELSE "MACHINERY: a load of allow-listed globals only did not return (" \o R.out \o ")")
   ELSE "ok"
 Judge == /\ ~done /\ done' = TRUE /\ UNCHANGED tid /\ verdict' = Why(T[tid])
 Spec == Init /\ [][Judge]_vars
